@@ -12,7 +12,7 @@ RULE = ("(a) descent paths: cell c at res 0..28 (by id construction with structu
         "alternating); every descendant centre within 1.5*L(res c) of the centre of c. (b) points p and res r'<r: "
         "distance(p, centre(parent(cell(p,r),r'))) <= 2.5*L(r'). (c) exact nesting at the top: each res-1 centre lies inside its "
         "res-0 parent's ring, each res-0 ring's corners are dodecahedron vertices; all paths of length 4 under every cell of "
-        "res<=2 (thorough). Non-trivial = path length>=3 with a non-zero child index, or r-r'>=2; distinct by (cell,path)/(p,r,r').")
+        "res<=2 (thorough); every one-/two-step prefix followed by a constant-child spine to depth 12 under every cell of res<=2/3. Non-trivial = path length>=3 with a non-zero child index, or r-r'>=2; distinct by (cell,path)/(p,r,r').")
 ASSUMPTIONS = ["constants 1.5 and 2.5 are the property's; distances on the authalic sphere"]
 REQUIRED_CLASSES = {"path": (None, 0.3), "point_ancestor": (None, 0.05)}
 
@@ -119,6 +119,17 @@ def stage_allpaths(ctx):
         for path in itertools.product(*[range(n) for n in counts]):
             judge_path({"cell": hex(c), "path": list(path)}, ctx.col, enumerated=True)
     ctx.col.exhaustive[f"all descent paths of length {depth} under every cell of res<=2"] = True
+    # prefix + spine: every one- and two-step prefix followed by a constant child index down 12 levels (the curve's
+    # orientation rules act on the first steps, the drift accumulates along the spine), under every cell of res <= 2
+    # (quick) / <= 3 (thorough)
+    if ctx.tier == "thorough":
+        cells = cells + refids.children(0, 3)
+    for c in cells[ctx.shard::ctx.nshards]:
+        for plen in (1, 2):
+            for prefix in itertools.product(range(5 if refids.res_of(c) == 0 else 4), *([range(4)] * (plen - 1))):
+                for spine in range(4):
+                    judge_path({"cell": hex(c), "path": list(prefix) + [spine] * (12 - plen)}, ctx.col, enumerated=True)
+    ctx.col.exhaustive["prefix(<=2)+spine paths of length 12 under every cell of res<=2"] = True
 
 
 def cases():
